@@ -1,168 +1,733 @@
 /-
-  `SwapStore` (Model/Swap.lean): safety and progress in every interleaving.
+  `SwapStore` / `SwapWriteStore` (Model/Swap.lean): safety and progress in every interleaving.
 -/
 import Desync.Model.Swap
 
 namespace Desync.Swap
 
-/-- the caller is inside a request (holds the read lock) -/
-def PC.isIn : PC → Bool
-  | .inReq _ => true
-  | _ => false
+/-- the caller an event belongs to -/
+def Ev.caller : Ev → Nat
+  | .wantR t => t
+  | .rlock t _ => t
+  | .enter t _ => t
+  | .exit t _ => t
+  | .closeU t _ => t
+  | .runlock t => t
+  | .wantW t => t
+  | .lock t => t
+  | .refuse t => t
+  | .closeOld t _ => t
+  | .install t => t
+  | .unlock t => t
 
-/-- number of callers inside a request -/
-def inCount (s : St) : Nat := s.callers.countP PC.isIn
+/-- `Tr s pc e pc' b`: in state `s` the caller of `e`, at `pc`, may take `e`; it continues at `pc'`,
+    and `b` is `s` with the shared fields as the step leaves them -/
+inductive Tr (s : St) : PC → Ev → PC → St → Prop
+  | wantR (t : Nat) (op : Op) : s.roles[t]? = some (.req op) → Tr s .idle (.wantR t) .wantR s
+  | rlock (t : Nat) : rlockFree s = true → Tr s .wantR (.rlock t s.current) (.holdR s.current) s
+  | enter (t e : Nat) (op : Op) : s.roles[t]? = some (.req op) → op ≠ .close → (op = .store → s.curW = true) →
+      Tr s (.holdR e) (.enter t e) (.inCall e) s
+  | exit (t e : Nat) : Tr s (.inCall e) (.exit t e) (.retd e) s
+  | closeU (t e : Nat) : s.roles[t]? = some (.req .close) →
+      Tr s (.holdR e) (.closeU t e) (.retd e) { s with closedUser := e :: s.closedUser }
+  | runlock (t e : Nat) : Tr s (.retd e) (.runlock t) (.done e) s
+  | panic (t e : Nat) : s.roles[t]? = some (.req .store) → ¬ s.curW = true →
+      Tr s (.holdR e) (.runlock t) (.panicked e) s
+  | wantW (t : Nat) (w : Bool) : s.roles[t]? = some (.swap w) → Tr s .idle (.wantW t) .wantW s
+  | lock (t : Nat) : lockFree s = true → Tr s .wantW (.lock t) .holdW s
+  | refuse (t : Nat) (w : Bool) : s.roles[t]? = some (.swap w) → refuses s w = true →
+      Tr s .holdW (.refuse t) .refusing s
+  | closeOld (t : Nat) (w : Bool) : s.roles[t]? = some (.swap w) → refuses s w = false →
+      Tr s .holdW (.closeOld t s.current) .closedOld { s with closedSwap := s.current :: s.closedSwap }
+  | install (t : Nat) (w : Bool) : s.roles[t]? = some (.swap w) →
+      Tr s .closedOld (.install t) .installed { s with current := s.current + 1, curW := w }
+  | unlockS (t : Nat) : Tr s .installed (.unlock t) .swapped s
+  | unlockR (t : Nat) : Tr s .refusing (.unlock t) .refused s
 
-/-- the inductive invariant -/
+/-- every step is one caller's transition -/
+theorem step_spec {s s' : St} {e : Ev} (hs : step s e = some s') :
+    ∃ pc pc' b, s.callers[e.caller]? = some pc ∧ Tr s pc e pc' b ∧
+      s' = { b with callers := s.callers.set e.caller pc' } := by
+  cases e with
+  | wantR t =>
+    simp only [step] at hs
+    split at hs
+    · rename_i op hpc hrl
+      injection hs with hs; subst hs
+      exact ⟨_, _, _, hpc, .wantR t op hrl, rfl⟩
+    · cases hs
+  | rlock t e =>
+    simp only [step] at hs
+    split at hs
+    · rename_i hpc
+      split at hs
+      · rename_i hc
+        injection hs with hs; subst hs
+        obtain ⟨hf, he⟩ := hc
+        subst he
+        exact ⟨_, _, _, hpc, .rlock t hf, rfl⟩
+      · cases hs
+    · cases hs
+  | enter t e' =>
+    simp only [step] at hs
+    split at hs
+    · rename_i e op hpc hrl
+      split at hs
+      · rename_i hc
+        injection hs with hs; subst hs
+        obtain ⟨he, hop, hw⟩ := hc
+        subst he
+        exact ⟨_, _, _, hpc, .enter t e' op hrl hop hw, rfl⟩
+      · cases hs
+    · cases hs
+  | exit t e' =>
+    simp only [step] at hs
+    split at hs
+    · rename_i e hpc
+      split at hs
+      · rename_i he
+        injection hs with hs; subst hs; subst he
+        exact ⟨_, _, _, hpc, .exit t e', rfl⟩
+      · cases hs
+    · cases hs
+  | closeU t e' =>
+    simp only [step] at hs
+    split at hs
+    · rename_i e hpc hrl
+      split at hs
+      · rename_i he
+        injection hs with hs; subst hs; subst he
+        exact ⟨_, _, _, hpc, .closeU t e' hrl, rfl⟩
+      · cases hs
+    · cases hs
+  | runlock t =>
+    simp only [step] at hs
+    split at hs
+    · rename_i e hpc
+      injection hs with hs; subst hs
+      exact ⟨_, _, _, hpc, .runlock t e, rfl⟩
+    · rename_i e hpc hrl
+      split at hs
+      · cases hs
+      · rename_i hw
+        injection hs with hs; subst hs
+        exact ⟨_, _, _, hpc, .panic t e hrl hw, rfl⟩
+    · cases hs
+  | wantW t =>
+    simp only [step] at hs
+    split at hs
+    · rename_i w hpc hrl
+      injection hs with hs; subst hs
+      exact ⟨_, _, _, hpc, .wantW t w hrl, rfl⟩
+    · cases hs
+  | lock t =>
+    simp only [step] at hs
+    split at hs
+    · rename_i hpc
+      split at hs
+      · rename_i hf
+        injection hs with hs; subst hs
+        exact ⟨_, _, _, hpc, .lock t hf, rfl⟩
+      · cases hs
+    · cases hs
+  | refuse t =>
+    simp only [step] at hs
+    split at hs
+    · rename_i w hpc hrl
+      split at hs
+      · rename_i hf
+        injection hs with hs; subst hs
+        exact ⟨_, _, _, hpc, .refuse t w hrl hf, rfl⟩
+      · cases hs
+    · cases hs
+  | closeOld t e =>
+    simp only [step] at hs
+    split at hs
+    · rename_i w hpc hrl
+      split at hs
+      · rename_i hc
+        injection hs with hs; subst hs
+        obtain ⟨hf, he⟩ := hc
+        subst he
+        exact ⟨_, _, _, hpc, .closeOld t w hrl hf, rfl⟩
+      · cases hs
+    · cases hs
+  | install t =>
+    simp only [step] at hs
+    split at hs
+    · rename_i w hpc hrl
+      injection hs with hs; subst hs
+      exact ⟨_, _, _, hpc, .install t w hrl, rfl⟩
+    · cases hs
+  | unlock t =>
+    simp only [step] at hs
+    split at hs
+    · rename_i hpc
+      injection hs with hs; subst hs
+      exact ⟨_, _, _, hpc, .unlockS t, rfl⟩
+    · rename_i hpc
+      injection hs with hs; subst hs
+      exact ⟨_, _, _, hpc, .unlockR t, rfl⟩
+    · cases hs
+
+/-- and conversely: every transition of the relation is a step -/
+theorem step_of_tr {s b : St} {e : Ev} {pc pc' : PC}
+    (hpc : s.callers[e.caller]? = some pc) (htr : Tr s pc e pc' b) :
+    step s e = some { b with callers := s.callers.set e.caller pc' } := by
+  cases htr with
+  | wantR t op hrl => simp only [Ev.caller] at hpc; simp only [step, hpc, hrl, setC, Ev.caller]
+  | rlock t hf => simp only [Ev.caller] at hpc; simp only [step, hpc, hf, setC, Ev.caller, and_self, if_true]
+  | enter t e op hrl hop hw =>
+    simp only [Ev.caller] at hpc
+    simp only [step, hpc, hrl, setC, Ev.caller]
+    rw [if_pos ⟨trivial, hop, hw⟩]
+  | exit t e => simp only [Ev.caller] at hpc; simp only [step, hpc, setC, Ev.caller, if_true]
+  | closeU t e hrl => simp only [Ev.caller] at hpc; simp only [step, hpc, hrl, setC, Ev.caller, if_true]
+  | runlock t e => simp only [Ev.caller] at hpc; simp only [step, hpc, setC, Ev.caller]
+  | panic t e hrl hw => simp only [Ev.caller] at hpc; simp only [step, hpc, hrl, setC, Ev.caller, if_neg hw]
+  | wantW t w hrl => simp only [Ev.caller] at hpc; simp only [step, hpc, hrl, setC, Ev.caller]
+  | lock t hf => simp only [Ev.caller] at hpc; simp only [step, hpc, hf, setC, Ev.caller, if_true]
+  | refuse t w hrl hf => simp only [Ev.caller] at hpc; simp only [step, hpc, hrl, hf, setC, Ev.caller, if_true]
+  | closeOld t w hrl hf =>
+    simp only [Ev.caller] at hpc
+    simp only [step, hpc, hrl, hf, setC, Ev.caller, and_self, if_true]
+  | install t w hrl => simp only [Ev.caller] at hpc; simp only [step, hpc, hrl, setC, Ev.caller]
+  | unlockS t => simp only [Ev.caller] at hpc; simp only [step, hpc, setC, Ev.caller]
+  | unlockR t => simp only [Ev.caller] at hpc; simp only [step, hpc, setC, Ev.caller]
+
+/-! ### list lemmas -/
+
+theorem get_set_ne {l : List PC} {c t : Nat} {x pc : PC} (hne : t ≠ c) (h : (l.set c x)[t]? = some pc) :
+    l[t]? = some pc := by
+  rw [List.getElem?_set] at h
+  rw [if_neg (fun h' => hne h'.symm)] at h
+  exact h
+
+theorem get_set_eq {l : List PC} {c : Nat} {x pc : PC} (h : (l.set c x)[c]? = some pc) : pc = x := by
+  rw [List.getElem?_set] at h
+  simp only [if_true] at h
+  split at h
+  · injection h with h; exact h.symm
+  · cases h
+
+theorem all_get {l : List PC} {f : PC → Bool} (h : l.all f = true) {t : Nat} {pc : PC}
+    (hpc : l[t]? = some pc) : f pc = true :=
+  List.all_eq_true.mp h pc (List.mem_of_getElem? hpc)
+
+theorem not_all {l : List PC} {f : PC → Bool} (h : ¬ l.all f = true) :
+    ∃ (u : Nat) (q : PC), l[u]? = some q ∧ f q = false := by
+  have : ¬ ∀ x ∈ l, f x = true := fun h' => h (List.all_eq_true.mpr h')
+  have ⟨x, hx⟩ := Classical.not_forall.mp this
+  have ⟨hm, hf⟩ := Classical.not_imp.mp hx
+  obtain ⟨u, hu⟩ := List.getElem?_of_mem hm
+  refine ⟨u, x, hu, ?_⟩
+  cases hfx : f x
+  · rfl
+  · exact absurd hfx hf
+
+/-! ### safety -/
+
+def PC.holds (pc : PC) : Bool := pc.isReader || pc.isWriter
+
+/-- the store a request is running on -/
+def PC.epoch : PC → Option Nat
+  | .holdR e => some e
+  | .inCall e => some e
+  | .retd e => some e
+  | _ => none
+
+/-- the inductive invariant: mutual exclusion; a read lock pins the installed store; what Swap has
+    closed is older than the installed store, except between `Close` and the assignment inside Swap -/
 structure Inv (s : St) : Prop where
-  readers : s.readers = inCount s
-  cur : ∀ (t e : Nat), s.callers[t]? = some (PC.inReq e) → e = s.current
-  closed : ∀ e, e ∈ s.closed → e < s.current
+  excl : ∀ (t u : Nat) (p q : PC), s.callers[t]? = some p → s.callers[u]? = some q → t ≠ u →
+    p.isWriter = true → q.holds = false
+  pin : ∀ (t : Nat) (p : PC) (e : Nat), s.callers[t]? = some p → p.epoch = some e → e = s.current
+  closed : ∀ e, e ∈ s.closedSwap → e ≤ s.current
+  closing : s.current ∈ s.closedSwap → ∃ (t : Nat), s.callers[t]? = some PC.closedOld
 
-theorem inv_init (k : Nat) : Inv (St.init k) := by
-  refine ⟨?_, ?_, ?_⟩
-  · simp [St.init, inCount, List.countP_replicate, PC.isIn]
-  · intro t e h
-    simp [St.init, List.getElem?_replicate] at h
-  · intro e h
-    simp [St.init] at h
-
-theorem countP_pos_of_getElem? {l : List PC} {t : Nat} {pc : PC}
-    (h : l[t]? = some pc) (hp : PC.isIn pc = true) : 0 < l.countP PC.isIn := by
-  apply List.countP_pos_iff.mpr
-  exact ⟨pc, List.mem_of_getElem? h, hp⟩
+theorem inv_init (curW wp : Bool) (roles : List Role) : Inv (St.init curW wp roles) := by
+  have idle : ∀ (t : Nat) (p : PC), (St.init curW wp roles).callers[t]? = some p → p = .idle := by
+    intro t p hp
+    simp only [St.init, List.getElem?_replicate] at hp
+    split at hp
+    · injection hp with hp; exact hp.symm
+    · cases hp
+  refine ⟨?_, ?_, ?_, ?_⟩
+  · intro t u p q hp _ _ hpw
+    rw [idle t p hp] at hpw; cases hpw
+  · intro t p e hp he
+    rw [idle t p hp] at he; cases he
+  · intro e h; simp [St.init] at h
+  · intro h; simp [St.init] at h
 
 theorem inv_step {s s' : St} (e : Ev) (hi : Inv s) (hs : step s e = some s') : Inv s' := by
-  obtain ⟨hr, hc, hcl⟩ := hi
-  cases e with
-  | enter t =>
-    simp only [step] at hs
-    split at hs
-    · rename_i hidle
-      injection hs with hs
-      subst hs
-      have hlt : t < s.callers.length := by
-        rcases Nat.lt_or_ge t s.callers.length with h | h
-        · exact h
-        · rw [List.getElem?_eq_none h] at hidle; cases hidle
-      have hget : s.callers[t] = PC.idle := by
-        rw [List.getElem?_eq_getElem hlt] at hidle
-        injection hidle
-      refine ⟨?_, ?_, ?_⟩
-      · simp [inCount, List.countP_set hlt, hget, PC.isIn, hr]
-      · intro u e' h
-        simp only [List.getElem?_set] at h
-        split at h
-        · injection h with h; injection h with h; exact h.symm
-        · exact hc u e' h
-      · exact hcl
-    · cases hs
-  | leave t =>
-    simp only [step] at hs
-    split at hs
-    · rename_i e0 hin
-      injection hs with hs
-      subst hs
-      have hlt : t < s.callers.length := by
-        rcases Nat.lt_or_ge t s.callers.length with h | h
-        · exact h
-        · rw [List.getElem?_eq_none h] at hin; cases hin
-      have hget : s.callers[t] = PC.inReq e0 := by
-        rw [List.getElem?_eq_getElem hlt] at hin
-        injection hin
-      refine ⟨?_, ?_, ?_⟩
-      · simp [inCount, List.countP_set hlt, hget, PC.isIn, hr]
-      · intro u e' h
-        simp only [List.getElem?_set] at h
-        split at h
-        · injection h with h; cases h
-        · exact hc u e' h
-      · exact hcl
-    · cases hs
-  | swap =>
-    simp only [step] at hs
-    split at hs
-    · rename_i h0
-      injection hs with hs
-      subst hs
-      refine ⟨?_, ?_, ?_⟩
-      · simpa [inCount] using hr
-      · intro u e' h
-        exfalso
-        have : 0 < inCount s := countP_pos_of_getElem? h rfl
-        omega
-      · intro e' h
-        simp only [List.mem_cons] at h
-        rcases h with h | h
-        · subst h; exact Nat.lt_succ_self _
-        · exact Nat.lt_succ_of_lt (hcl e' h)
-    · cases hs
+  obtain ⟨pc0, pc', b, hpc, htr, hs'⟩ := step_spec hs
+  obtain ⟨hex, hpin, hcl, hcg⟩ := hi
+  subst hs'
+  -- mutual exclusion survives every transition that creates no new holder
+  have excl_of : (pc'.isWriter = true → pc0.isWriter = true) → (pc'.holds = true → pc0.holds = true) →
+      ∀ (t u : Nat) (p q : PC), (s.callers.set e.caller pc')[t]? = some p →
+        (s.callers.set e.caller pc')[u]? = some q → t ≠ u → p.isWriter = true → q.holds = false := by
+    intro hw hh t u p q hp hq hne hpw
+    by_cases htc : t = e.caller
+    · subst htc
+      have := get_set_eq hp; subst this
+      have hq' := get_set_ne (fun h => hne h.symm) hq
+      exact hex _ _ _ _ hpc hq' hne (hw hpw)
+    · have hp' := get_set_ne htc hp
+      by_cases huc : u = e.caller
+      · subst huc
+        have := get_set_eq hq; subst this
+        have := hex _ _ _ _ hp' hpc hne hpw
+        cases hh' : q.holds
+        · rfl
+        · rw [hh hh'] at this; cases this
+      · exact hex _ _ _ _ hp' (get_set_ne huc hq) hne hpw
+  -- the pin survives when `current` stays and the new pc holds an epoch only if the old one held it (or it is current)
+  have pin_of : (∀ e, pc'.epoch = some e → pc0.epoch = some e ∨ e = s.current) →
+      ∀ (t : Nat) (p : PC) (e' : Nat), (s.callers.set e.caller pc')[t]? = some p → p.epoch = some e' →
+        e' = s.current := by
+    intro hr t p e' hp he
+    by_cases htc : t = e.caller
+    · subst htc
+      have := get_set_eq hp; subst this
+      rcases hr e' he with h1 | h1
+      · exact hpin _ _ _ hpc h1
+      · exact h1
+    · exact hpin _ _ _ (get_set_ne htc hp) he
+  -- the witness of `closing` survives unless the stepping caller was it
+  have closing_of : pc0 ≠ .closedOld → s.current ∈ s.closedSwap →
+      ∃ (t : Nat), (s.callers.set e.caller pc')[t]? = some PC.closedOld := by
+    intro hne hin
+    obtain ⟨t, ht⟩ := hcg hin
+    refine ⟨t, ?_⟩
+    have htc : t ≠ e.caller := by
+      intro h; subst h; rw [hpc] at ht; injection ht with ht; exact hne ht
+    rw [List.getElem?_set, if_neg (fun h => htc h.symm)]
+    exact ht
+  cases htr with
+  | wantR t op hrl =>
+    exact ⟨excl_of (by intro h; cases h) (by intro h; cases h), pin_of (by intro e h; cases h), hcl,
+      closing_of (by intro h; cases h)⟩
+  | rlock t hf =>
+    refine ⟨?_, pin_of (by intro e h; injection h with h; exact Or.inr h.symm), hcl, closing_of (by intro h; cases h)⟩
+    intro t' u p q hp hq hne hpw
+    simp only [Ev.caller] at hp hq
+    by_cases htc : t' = t
+    · subst htc
+      have := get_set_eq hp; subst this; cases hpw
+    · have hp' := get_set_ne htc hp
+      have := all_get hf hp'
+      rw [hpw] at this
+      cases this
+  | enter t e0 op hrl hop hw =>
+    exact ⟨excl_of (by intro h; cases h) (fun _ => rfl), pin_of (by intro e h; exact Or.inl h), hcl,
+      closing_of (by intro h; cases h)⟩
+  | exit t e0 =>
+    exact ⟨excl_of (by intro h; cases h) (fun _ => rfl), pin_of (by intro e h; exact Or.inl h), hcl,
+      closing_of (by intro h; cases h)⟩
+  | closeU t e0 hrl =>
+    exact ⟨excl_of (by intro h; cases h) (fun _ => rfl), pin_of (by intro e h; exact Or.inl h), hcl,
+      closing_of (by intro h; cases h)⟩
+  | runlock t e0 =>
+    exact ⟨excl_of (by intro h; cases h) (by intro h; cases h), pin_of (by intro e h; cases h), hcl,
+      closing_of (by intro h; cases h)⟩
+  | panic t e0 hrl hw =>
+    exact ⟨excl_of (by intro h; cases h) (by intro h; cases h), pin_of (by intro e h; cases h), hcl,
+      closing_of (by intro h; cases h)⟩
+  | wantW t w hrl =>
+    exact ⟨excl_of (by intro h; cases h) (by intro h; cases h), pin_of (by intro e h; cases h), hcl,
+      closing_of (by intro h; cases h)⟩
+  | lock t hf =>
+    refine ⟨?_, pin_of (by intro e h; cases h), hcl, closing_of (by intro h; cases h)⟩
+    intro t' u p q hp hq hne hpw
+    simp only [Ev.caller] at hp hq
+    by_cases huc : u = t
+    · subst huc
+      have hp' := get_set_ne hne hp
+      have := all_get hf hp'
+      simp only [hpw, Bool.or_true, Bool.not_true] at this
+      cases this
+    · have hq' := get_set_ne huc hq
+      have := all_get hf hq'
+      simp only [PC.holds]
+      cases hh : (q.isReader || q.isWriter)
+      · rfl
+      · rw [hh] at this; cases this
+  | refuse t w hrl hf =>
+    exact ⟨excl_of (fun _ => rfl) (fun _ => rfl), pin_of (by intro e h; cases h), hcl,
+      closing_of (by intro h; cases h)⟩
+  | closeOld t w hrl hf =>
+    refine ⟨excl_of (fun _ => rfl) (fun _ => rfl), pin_of (by intro e h; cases h), ?_, ?_⟩
+    · intro e' he'
+      simp only [List.mem_cons] at he'
+      rcases he' with h1 | h1
+      · rw [h1]; exact Nat.le_refl _
+      · exact hcl e' h1
+    · intro _
+      refine ⟨t, ?_⟩
+      simp only [Ev.caller]
+      rw [List.getElem?_set]
+      simp only [if_true]
+      simp only [Ev.caller] at hpc
+      rcases Nat.lt_or_ge t s.callers.length with hlt | hge
+      · rw [if_pos hlt]
+      · rw [List.getElem?_eq_none hge] at hpc; cases hpc
+  | install t w hrl =>
+    refine ⟨excl_of (fun _ => rfl) (fun _ => rfl), ?_, ?_, ?_⟩
+    · -- nobody else holds anything while the writer is here
+      intro t' p e' hp he'
+      simp only [Ev.caller] at hp hpc
+      by_cases htc : t' = t
+      · subst htc
+        have := get_set_eq hp; subst this; cases he'
+      · have hp' := get_set_ne htc hp
+        have := hex _ _ _ _ hpc hp' (fun h => htc h.symm) rfl
+        cases p <;> first | (cases he'; done) | (cases this; done)
+    · intro e' he'
+      exact Nat.le_succ_of_le (hcl e' he')
+    · intro hin
+      have := hcl _ hin
+      exact absurd this (Nat.not_succ_le_self _)
+  | unlockS t =>
+    exact ⟨excl_of (by intro h; cases h) (by intro h; cases h), pin_of (by intro e h; cases h), hcl,
+      closing_of (by intro h; cases h)⟩
+  | unlockR t =>
+    exact ⟨excl_of (by intro h; cases h) (by intro h; cases h), pin_of (by intro e h; cases h), hcl,
+      closing_of (by intro h; cases h)⟩
 
-theorem inv_reachable {k : Nat} {s : St} (hr : Reachable (St.init k) s) : Inv s := by
+theorem inv_reachable {curW wp : Bool} {roles : List Role} {s : St}
+    (hr : Reachable (St.init curW wp roles) s) : Inv s := by
   induction hr with
-  | refl => exact inv_init k
+  | refl => exact inv_init curW wp roles
   | step e _ hs ih => exact inv_step e ih hs
 
-/-- **swapping the store under load never closes a store that a request is running on**: a running
-request uses the installed store, and that store has not been closed -/
-theorem no_use_after_close (k : Nat) (s : St) (hr : Reachable (St.init k) s) (t e : Nat)
-    (ht : s.callers[t]? = some (PC.inReq e)) : e ∉ s.closed ∧ e = s.current := by
+/-- **no use after close**: the store a request has read under the read lock — whether the member call
+has not started yet, is in flight, or has returned — is the installed one and has not been closed by
+any `Swap`, in every interleaving of any number of requests and swaps -/
+theorem no_use_after_close (curW wp : Bool) (roles : List Role) (s : St)
+    (hr : Reachable (St.init curW wp roles) s) (t : Nat) (p : PC) (e : Nat)
+    (ht : s.callers[t]? = some p) (he : p.epoch = some e) : e ∉ s.closedSwap ∧ e = s.current := by
   have hi := inv_reachable hr
-  have he := hi.cur t e ht
-  refine ⟨?_, he⟩
-  intro hmem
-  have := hi.closed e hmem
-  omega
+  have hcur := hi.pin t p e ht he
+  refine ⟨?_, hcur⟩
+  intro hin
+  rw [hcur] at hin
+  obtain ⟨u, hu⟩ := hi.closing hin
+  have hne : u ≠ t := by
+    intro h; subst h; rw [ht] at hu; injection hu with hu; subst hu; cases he
+  have := hi.excl u t _ _ hu ht hne rfl
+  cases p <;> first | (cases he; done) | (cases this; done)
 
-/-- the read-lock count is exactly the number of callers inside a request -/
-theorem readers_count (k : Nat) (s : St) (hr : Reachable (St.init k) s) :
-    s.readers = inCount s :=
-  (inv_reachable hr).readers
+/-- a `Swap` holding the write lock is alone: no request holds the read lock, no other `Swap` the write lock -/
+theorem writer_alone (curW wp : Bool) (roles : List Role) (s : St)
+    (hr : Reachable (St.init curW wp roles) s) (t u : Nat) (p q : PC)
+    (hp : s.callers[t]? = some p) (hq : s.callers[u]? = some q) (hne : t ≠ u) (hw : p.isWriter = true) :
+    q.holds = false :=
+  (inv_reachable hr).excl t u p q hp hq hne hw
 
-/-- closed epochs are all older than the installed one (the installed store is never closed) -/
-theorem current_not_closed (k : Nat) (s : St) (hr : Reachable (St.init k) s) :
-    s.current ∉ s.closed := by
-  intro h
-  have := (inv_reachable hr).closed _ h
-  omega
+/-! ### a writable wrapper stays writable -/
 
-/-- **no request is lost or blocked forever**: an idle caller can always enter, a caller inside can
-always leave, and `swap` is enabled whenever no request is running -/
-theorem progress (k : Nat) (s : St) (hr : Reachable (St.init k) s) :
-    (∀ (t : Nat), s.callers[t]? = some .idle → ∃ s', step s (.enter t) = some s') ∧
-    (∀ (t e : Nat), s.callers[t]? = some (PC.inReq e) → ∃ s', step s (.leave t) = some s') ∧
-    ((∀ (t e : Nat), s.callers[t]? ≠ some (PC.inReq e)) → ∃ s', step s .swap = some s') := by
-  refine ⟨?_, ?_, ?_⟩
-  · intro t h
-    simp [step, h]
-  · intro t e h
-    simp [step, h]
-  · intro h
-    have hz : s.readers = 0 := by
-      rw [(inv_reachable hr).readers, inCount, List.countP_eq_zero]
-      intro pc hmem hp
-      obtain ⟨t, ht⟩ := List.getElem?_of_mem hmem
-      cases pc with
-      | inReq e => exact h t e ht
-      | idle => cases hp
-      | done e => cases hp
-    simp [step, hz]
+/-- as long as the installed store is writable every Swap that gets as far as closing it brings a writable one -/
+structure WInv (s : St) : Prop where
+  cur : s.curW = true
+  bring : ∀ (t : Nat), s.callers[t]? = some .closedOld → s.roles[t]? = some (.swap true)
 
-/-- conversely `swap` is blocked exactly while some request is running (the write lock waits) -/
-theorem swap_blocked_iff (k : Nat) (s : St) (hr : Reachable (St.init k) s) :
-    step s .swap = none ↔ ∃ (t : Nat) (e : Nat), s.callers[t]? = some (PC.inReq e) := by
-  constructor
-  · intro hn
-    apply Classical.byContradiction
-    intro hne
-    have := (progress k s hr).2.2 (fun t e h => hne ⟨t, e, h⟩)
-    obtain ⟨s', hs'⟩ := this
-    rw [hn] at hs'; cases hs'
-  · rintro ⟨t, e, h⟩
-    have : 0 < inCount s := countP_pos_of_getElem? h rfl
-    have hr' := (inv_reachable hr).readers
-    have : s.readers ≠ 0 := by omega
-    simp [step, this]
+theorem step_roles {s s' : St} {e : Ev} (hs : step s e = some s') : s'.roles = s.roles ∧ s'.wp = s.wp := by
+  obtain ⟨_, _, b, _, htr, hs'⟩ := step_spec hs
+  subst hs'
+  cases htr <;> exact ⟨rfl, rfl⟩
+
+theorem winv_step {s s' : St} (e : Ev) (hi : WInv s) (hs : step s e = some s') : WInv s' := by
+  obtain ⟨pc0, pc', b, hpc, htr, hs'⟩ := step_spec hs
+  obtain ⟨hcur, hbr⟩ := hi
+  subst hs'
+  have keep : pc' ≠ .closedOld → ∀ (t : Nat), (s.callers.set e.caller pc')[t]? = some .closedOld →
+      s.roles[t]? = some (.swap true) := by
+    intro hne t ht
+    by_cases htc : t = e.caller
+    · subst htc
+      exact absurd (get_set_eq ht).symm hne
+    · exact hbr t (get_set_ne htc ht)
+  cases htr with
+  | closeOld t w hrl hf =>
+    refine ⟨hcur, ?_⟩
+    intro t' ht'
+    simp only [Ev.caller] at ht'
+    by_cases htc : t' = t
+    · subst htc
+      show s.roles[t']? = some (.swap true)
+      rw [hrl]
+      simp only [refuses, hcur, Bool.true_and, Bool.not_eq_false'] at hf
+      rw [hf]
+    · exact hbr t' (get_set_ne htc ht')
+  | install t w hrl =>
+    simp only [Ev.caller] at hpc
+    have := hbr t hpc
+    rw [hrl] at this
+    injection this with this
+    injection this with this
+    refine ⟨this, ?_⟩
+    exact keep (by intro h; cases h)
+  | wantR t op hrl => exact ⟨hcur, keep (by intro h; cases h)⟩
+  | rlock t hf => exact ⟨hcur, keep (by intro h; cases h)⟩
+  | enter t e0 op hrl hop hw => exact ⟨hcur, keep (by intro h; cases h)⟩
+  | exit t e0 => exact ⟨hcur, keep (by intro h; cases h)⟩
+  | closeU t e0 hrl => exact ⟨hcur, keep (by intro h; cases h)⟩
+  | runlock t e0 => exact ⟨hcur, keep (by intro h; cases h)⟩
+  | panic t e0 hrl hw => exact ⟨hcur, keep (by intro h; cases h)⟩
+  | wantW t w hrl => exact ⟨hcur, keep (by intro h; cases h)⟩
+  | lock t hf => exact ⟨hcur, keep (by intro h; cases h)⟩
+  | refuse t w hrl hf => exact ⟨hcur, keep (by intro h; cases h)⟩
+  | unlockS t => exact ⟨hcur, keep (by intro h; cases h)⟩
+  | unlockR t => exact ⟨hcur, keep (by intro h; cases h)⟩
+
+theorem winv_reachable {wp : Bool} {roles : List Role} {s : St}
+    (hr : Reachable (St.init true wp roles) s) : WInv s := by
+  induction hr with
+  | refl =>
+    refine ⟨rfl, ?_⟩
+    intro t ht
+    simp only [St.init, List.getElem?_replicate] at ht
+    split at ht
+    · injection ht with ht; cases ht
+    · cases ht
+  | step e _ hs ih => exact winv_step e ih hs
+
+/-- **a `SwapWriteStore` built on a writable store stays writable**, whatever is swapped in (a Swap to a
+store that is not writable is refused), so `StoreChunk`'s type assertion never panics -/
+theorem store_never_panics (wp : Bool) (roles : List Role) (s : St)
+    (hr : Reachable (St.init true wp roles) s) :
+    s.curW = true ∧ ∀ (t e : Nat), s.callers[t]? ≠ some (.panicked e) := by
+  refine ⟨(winv_reachable hr).cur, ?_⟩
+  induction hr with
+  | refl =>
+    intro t e ht
+    simp only [St.init, List.getElem?_replicate] at ht
+    split at ht
+    · injection ht with ht; cases ht
+    · cases ht
+  | step ev hmid hs ih =>
+    intro t e ht
+    obtain ⟨pc0, pc', b, hpc, htr, hs'⟩ := step_spec hs
+    subst hs'
+    by_cases htc : t = ev.caller
+    · subst htc
+      have := get_set_eq ht
+      cases htr with
+      | panic t' e0 hrl hw => exact hw (winv_reachable hmid).cur
+      | _ => cases this
+    · exact ih t e (get_set_ne htc ht)
+
+/-! ### progress -/
+
+def PC.final : PC → Bool
+  | .done _ => true
+  | .panicked _ => true
+  | .swapped => true
+  | .refused => true
+  | _ => false
+
+def PC.waiting : PC → Bool
+  | .wantR => true
+  | .wantW => true
+  | _ => false
+
+/-- every caller has its role -/
+theorem callers_length {curW wp : Bool} {roles : List Role} {s : St}
+    (hr : Reachable (St.init curW wp roles) s) : s.callers.length = s.roles.length := by
+  induction hr with
+  | refl => simp [St.init]
+  | step e _ hs ih =>
+    obtain ⟨_, _, b, _, htr, hs'⟩ := step_spec hs
+    subst hs'
+    simp only [List.length_set]
+    cases htr <;> exact ih
+
+/-- the program counter fits the role: requests never run Swap's code and vice versa -/
+def Fits : Role → PC → Prop
+  | .req _, .idle => True
+  | .req _, .wantR => True
+  | .req _, .holdR _ => True
+  | .req op, .inCall _ => op ≠ .close
+  | .req _, .retd _ => True
+  | .req _, .done _ => True
+  | .req _, .panicked _ => True
+  | .swap _, .idle => True
+  | .swap _, .wantW => True
+  | .swap _, .holdW => True
+  | .swap _, .closedOld => True
+  | .swap _, .installed => True
+  | .swap _, .refusing => True
+  | .swap _, .swapped => True
+  | .swap _, .refused => True
+  | _, _ => False
+
+theorem fits_reachable {curW wp : Bool} {roles : List Role} {s : St}
+    (hr : Reachable (St.init curW wp roles) s) :
+    ∀ (t : Nat) (p : PC), s.callers[t]? = some p → ∃ r, s.roles[t]? = some r ∧ Fits r p := by
+  induction hr with
+  | refl =>
+    intro t p hp
+    have hlt : t < roles.length := by
+      rcases Nat.lt_or_ge t roles.length with h | h
+      · exact h
+      · simp only [St.init] at hp
+        rw [List.getElem?_eq_none (by simp only [List.length_replicate]; exact h)] at hp; cases hp
+    simp only [St.init, List.getElem?_replicate, if_pos hlt] at hp
+    injection hp with hp; subst hp
+    refine ⟨roles[t], List.getElem?_eq_getElem hlt, ?_⟩
+    cases roles[t] <;> trivial
+  | step e _ hs ih =>
+    intro t p hp
+    obtain ⟨pc0, pc', b, hpc, htr, hs'⟩ := step_spec hs
+    subst hs'
+    have hroles : b.roles = _ := rfl
+    by_cases htc : t = e.caller
+    · subst htc
+      have := get_set_eq hp; subst this
+      obtain ⟨r, hr0, hf0⟩ := ih _ _ hpc
+      cases htr with
+      | wantR t op hrl => exact ⟨_, hrl, trivial⟩
+      | rlock t hf => simp only [Ev.caller] at hr0; cases r <;> first | exact ⟨_, hr0, trivial⟩ | cases hf0
+      | enter t e0 op hrl hop hw => exact ⟨_, hrl, hop⟩
+      | exit t e0 => simp only [Ev.caller] at hr0; cases r <;> first | exact ⟨_, hr0, trivial⟩ | cases hf0
+      | closeU t e0 hrl => exact ⟨_, hrl, trivial⟩
+      | runlock t e0 => simp only [Ev.caller] at hr0; cases r <;> first | exact ⟨_, hr0, trivial⟩ | cases hf0
+      | panic t e0 hrl hw => exact ⟨_, hrl, trivial⟩
+      | wantW t w hrl => exact ⟨_, hrl, trivial⟩
+      | lock t hf => simp only [Ev.caller] at hr0; cases r <;> first | exact ⟨_, hr0, trivial⟩ | cases hf0
+      | refuse t w hrl hf => exact ⟨_, hrl, trivial⟩
+      | closeOld t w hrl hf => exact ⟨_, hrl, trivial⟩
+      | install t w hrl => exact ⟨_, hrl, trivial⟩
+      | unlockS t => simp only [Ev.caller] at hr0; cases r <;> first | exact ⟨_, hr0, trivial⟩ | cases hf0
+      | unlockR t => simp only [Ev.caller] at hr0; cases r <;> first | exact ⟨_, hr0, trivial⟩ | cases hf0
+    · have := ih t p (get_set_ne htc hp)
+      cases htr <;> exact this
+
+/-- a caller that holds the lock always has an enabled event of its own -/
+theorem holder_enabled {curW wp : Bool} {roles : List Role} {s : St}
+    (hr : Reachable (St.init curW wp roles) s) {u : Nat} {q : PC}
+    (hq : s.callers[u]? = some q) (hh : q.holds = true) :
+    ∃ (e : Ev) (s' : St), e.caller = u ∧ step s e = some s' := by
+  obtain ⟨r, hrl, hfit⟩ := fits_reachable hr u q hq
+  cases q with
+  | holdR e =>
+    cases r with
+    | req op =>
+      by_cases hcl : op = .close
+      · subst hcl
+        exact ⟨.closeU u e, _, rfl, step_of_tr (e := .closeU u e) hq (.closeU u e hrl)⟩
+      · by_cases hst : op = .store → s.curW = true
+        · exact ⟨.enter u e, _, rfl, step_of_tr (e := .enter u e) hq (.enter u e op hrl hcl hst)⟩
+        · have hop : op = .store := Classical.byContradiction fun h => hst (fun h' => absurd h' h)
+          subst hop
+          exact ⟨.runlock u, _, rfl, step_of_tr (e := .runlock u) hq (.panic u e hrl (fun h => hst (fun _ => h)))⟩
+    | swap w => cases hfit
+  | inCall e => exact ⟨.exit u e, _, rfl, step_of_tr (e := .exit u e) hq (.exit u e)⟩
+  | retd e => exact ⟨.runlock u, _, rfl, step_of_tr (e := .runlock u) hq (.runlock u e)⟩
+  | holdW =>
+    cases r with
+    | req op => cases hfit
+    | swap w =>
+      cases hf : refuses s w
+      · exact ⟨.closeOld u s.current, _, rfl, step_of_tr (e := .closeOld u s.current) hq (.closeOld u w hrl hf)⟩
+      · exact ⟨.refuse u, _, rfl, step_of_tr (e := .refuse u) hq (.refuse u w hrl hf)⟩
+  | closedOld =>
+    cases r with
+    | req op => cases hfit
+    | swap w => exact ⟨.install u, _, rfl, step_of_tr (e := .install u) hq (.install u w hrl)⟩
+  | installed => exact ⟨.unlock u, _, rfl, step_of_tr (e := .unlock u) hq (.unlockS u)⟩
+  | refusing => exact ⟨.unlock u, _, rfl, step_of_tr (e := .unlock u) hq (.unlockR u)⟩
+  | _ => cases hh
+
+/-- **progress**: a caller that has not returned either has an enabled event of its own, or it waits
+for the mutex and a caller that holds the mutex has an enabled event (requests in flight finish, a
+Swap that holds the lock finishes), or it waits only because a Swap has announced itself and that Swap
+can take the lock now.  No request is lost, nobody waits for ever. -/
+theorem progress (curW wp : Bool) (roles : List Role) (s : St)
+    (hr : Reachable (St.init curW wp roles) s) (t : Nat) (pc : PC) (hpc : s.callers[t]? = some pc)
+    (hfin : pc.final = false) :
+    (∃ (e : Ev) (s' : St), e.caller = t ∧ step s e = some s') ∨
+    (pc.waiting = true ∧ ∃ (u : Nat) (q : PC), u ≠ t ∧ s.callers[u]? = some q ∧
+      ((q.holds = true ∧ ∃ (e : Ev) (s' : St), e.caller = u ∧ step s e = some s') ∨
+       (q.isPendingW = true ∧ ∃ s', step s (.lock u) = some s'))) := by
+  have blockedW : ∀ (v : Nat), s.callers[v]? = some .wantW → ¬ lockFree s = true →
+      ∃ (u : Nat) (q : PC), u ≠ v ∧ s.callers[u]? = some q ∧ q.holds = true := by
+    intro v hv hf
+    obtain ⟨u, q, hq, hfq⟩ := not_all hf
+    refine ⟨u, q, ?_, hq, ?_⟩
+    · intro huv; subst huv; rw [hv] at hq; injection hq with hq; subst hq; cases hfq
+    · simp only [PC.holds]
+      cases hh' : (q.isReader || q.isWriter)
+      · rw [hh'] at hfq; cases hfq
+      · rfl
+  obtain ⟨r, hrl, hfit⟩ := fits_reachable hr t pc hpc
+  cases pc with
+  | idle =>
+    cases r with
+    | req op => exact Or.inl ⟨.wantR t, _, rfl, step_of_tr (e := .wantR t) hpc (.wantR t op hrl)⟩
+    | swap w => exact Or.inl ⟨.wantW t, _, rfl, step_of_tr (e := .wantW t) hpc (.wantW t w hrl)⟩
+  | wantR =>
+    by_cases hf : rlockFree s = true
+    · exact Or.inl ⟨.rlock t s.current, _, rfl, step_of_tr (e := .rlock t s.current) hpc (.rlock t hf)⟩
+    · obtain ⟨u, q, hq, hfq⟩ := not_all hf
+      have hut : u ≠ t := by
+        intro hut; subst hut; rw [hpc] at hq; injection hq with hq; subst hq
+        simp [PC.isWriter, PC.isPendingW] at hfq
+      refine Or.inr ⟨rfl, ?_⟩
+      by_cases hw : q.isWriter = true
+      · have hh : q.holds = true := by simp only [PC.holds, hw, Bool.or_true]
+        exact ⟨u, q, hut, hq, Or.inl ⟨hh, holder_enabled hr hq hh⟩⟩
+      · have hpw : q.isPendingW = true := by
+          cases hq1 : q.isWriter
+          · rw [hq1] at hfq
+            simp only [Bool.false_or, Bool.not_eq_false', Bool.and_eq_true] at hfq
+            exact hfq.2
+          · exact absurd hq1 hw
+        cases q with
+        | wantW =>
+          by_cases hlf : lockFree s = true
+          · exact ⟨u, _, hut, hq, Or.inr ⟨rfl, _, step_of_tr (e := .lock u) hq (.lock u hlf)⟩⟩
+          · obtain ⟨v, q', hvu, hq', hh'⟩ := blockedW u hq hlf
+            have hvt : v ≠ t := by
+              intro hvt; subst hvt; rw [hpc] at hq'; injection hq' with hq'; subst hq'; cases hh'
+            exact ⟨v, q', hvt, hq', Or.inl ⟨hh', holder_enabled hr hq' hh'⟩⟩
+        | _ => cases hpw
+  | holdR e => exact Or.inl (holder_enabled hr hpc rfl)
+  | inCall e => exact Or.inl (holder_enabled hr hpc rfl)
+  | retd e => exact Or.inl (holder_enabled hr hpc rfl)
+  | wantW =>
+    by_cases hlf : lockFree s = true
+    · exact Or.inl ⟨.lock t, _, rfl, step_of_tr (e := .lock t) hpc (.lock t hlf)⟩
+    · obtain ⟨u, q, hut, hq, hh'⟩ := blockedW t hpc hlf
+      exact Or.inr ⟨rfl, u, q, hut, hq, Or.inl ⟨hh', holder_enabled hr hq hh'⟩⟩
+  | holdW => exact Or.inl (holder_enabled hr hpc rfl)
+  | closedOld => exact Or.inl (holder_enabled hr hpc rfl)
+  | installed => exact Or.inl (holder_enabled hr hpc rfl)
+  | refusing => exact Or.inl (holder_enabled hr hpc rfl)
+  | done e => cases hfin
+  | panicked e => cases hfin
+  | swapped => cases hfin
+  | refused => cases hfin
+
+/-! ### runs (for examples and the driver) -/
+
+def run (s : St) : List Ev → Option St
+  | [] => some s
+  | e :: es => match step s e with
+    | some s' => run s' es
+    | none => none
+
+theorem run_reachable {s0 s s' : St} (hr : Reachable s0 s) (es : List Ev) (h : run s es = some s') :
+    Reachable s0 s' := by
+  induction es generalizing s with
+  | nil => simp only [run] at h; injection h with h; subst h; exact hr
+  | cons e es ih =>
+    simp only [run] at h
+    split at h
+    · rename_i s1 hs1
+      exact ih (Reachable.step e hr hs1) h
+    · cases h
 
 end Desync.Swap
-
